@@ -14,7 +14,7 @@ TRUSTED_BASE = [
 ASSUMPTIONS = ["the FragmentBuffer backing store is modelled lazily (map fragment index -> bytes, zero elsewhere); its `unsafe` re-boxing is C19's subject"]
 RULE = ("(a) size sweep: every payload length in [k*1448-2, k*1448+2] for k<=6 plus 0,1,2 and random lengths up to 64 kB, Reliable, over networks that drop, duplicate, "
         "reorder and delay fragments, with small credits cutting packets across flushes; (b) mixed lossy two-endpoint scenarios; (c) forged-header fragments injected "
-        "for in-progress packets. Non-trivial: at least one multi-fragment packet was delivered. Distinct by (sizes bucket, window sizes, fates).")
+        "for in-progress packets; (d) implementation only: one packet of 65535*1448-1 .. MAX_PACKET_SIZE bytes over an ideal link. Non-trivial: at least one multi-fragment packet was delivered. Distinct by (sizes bucket, window sizes, fates).")
 
 def streams(rng, tier, ctx):
     n = 16 if tier == "quick" else 300
@@ -97,7 +97,35 @@ def streams(rng, tier, ctx):
             cases.append((cid, sim.ops)); meta[cid] = sim
     finally:
         it.close(); codec.close()
-    return [{"name": "sizes", "mode": "hc", "cases": cases, "meta": meta, "case_timeout": 120}]
+    out = [{"name": "sizes", "mode": "hc", "cases": cases, "meta": meta, "case_timeout": 120}]
+    # the largest packets (65535 and 65536 fragments, MAX_PACKET_SIZE and its neighbours): implementation only — the
+    # executable model cannot hold a 95 MB byte list; the theorems C04_slices / C04_emit_wf cover these sizes on the model
+    MAXP = 65536 * F
+    sizes = [MAXP, MAXP - 1, 65535 * F + 1, 65535 * F, 65535 * F - 1]
+    pick = [sizes[rng.below(3)]] if tier == "quick" else sizes
+    it = Interactive("hc")
+    bcases = []; bmeta = {}
+    try:
+        for i, ln in enumerate(pick):
+            r = rng.fork()
+            it.op("=== genmax%d" % i)
+            cfg = pick_cfg(r); cfg["pw"] = 4096; cfg["fw"] = 4096; cfg["bwA"] = cfg["bwB"] = 2_000_000_000; cfg["allocA"] = cfg["allocB"] = 100_000_000
+            sim = Sim(r, cfg, inter=it)
+            ok = Net(latency=0)
+            sim.send("A", r.below(3), 3, ln, huge=True)
+            sim.send("A", r.below(3), 3, 10)
+            for _ in range(16000):
+                sim.run(1, 5_000_000, ok, ok)
+                if sim.dead or len(sim.delivered["B"]) >= 2:
+                    break
+            sim.run(5, 5_000_000, ok, ok)
+            sim.drained = sim.quiescent()
+            cid = "x%d" % i
+            bcases.append((cid, sim.ops)); bmeta[cid] = sim
+    finally:
+        it.close()
+    out.append({"name": "max_size", "mode": "hc", "cases": bcases, "meta": bmeta, "case_timeout": 300, "impl_only": True})
+    return out
 
 def signature(ops, outs):
     multi = 0
